@@ -101,11 +101,26 @@ namespace c09
             igris::archive::writable_buffer wb;
             size_t cap_ = caps[((const unsigned char *)m.pointer())[0] % 4]; // (chosen by the low byte of the length on the wire)
             // the destination is described by assignment, or through the two setters in either order
-            switch (((const unsigned char *)m.pointer())[0] / 4 % 3)
+            switch (((const unsigned char *)m.pointer())[0] / 4 % 4)
             {
             case 0: wb = igris::buffer(store, cap_); break;
             case 1: wb.size(cap_); wb.data(store); break;
-            default: wb.data(store); wb.size(cap_); break;
+            case 2: wb.data(store); wb.size(cap_); break;
+            default:
+            {
+                // a long-lived destination that has just received an empty message from another stream and is re-armed by
+                // giving it its room back (the storage stays where it is)
+                static const char empty_wire[2] = {0, 0};
+                igris::archive::binary_buffer_reader er(empty_wire, 2);
+                wb.data(store);
+                wb.size(cap_);
+                igris::deserialize(er, wb);
+                if (wb.size() != 0) kit::violate("C09/roundtrip@archive:B4", "an empty payload was decoded into a destination as %zu bytes", wb.size());
+                wb.size(cap_);
+                if (wb.data() != store) kit::violate("C09/destination-lost@archive", "a destination buffer that received an empty payload no longer points at its storage");
+                kit::probe("destination_reused_after_empty_payload");
+                break;
+            }
             }
             m.load(wb);
             payload.assign(wb.data(), wb.size());
